@@ -829,9 +829,10 @@ def regenerate(ctx):
         gen_pre.main(os.path.join(C.SRC, "pre.py"), os.path.join(C.SRC, "torch.py"), os.path.join(C.COQ, "gen", "Pre.v"))
         return True
     except (Unsupported, SyntaxError, OSError) as e:
-        ctx.fail("translator gen/pre.py no longer recognises pre.py / torch.py: %s" % e,
-                 dict(correspondence="gen/pre.py -> coq/gen/Pre.v", error=str(e)), kind="tie", no_input=True)
-        return False
+        if not C.tie_fallback(ctx, "translator gen/pre.py no longer recognises pre.py / torch.py: %s" % e,
+                 dict(correspondence="gen/pre.py -> coq/gen/Pre.v", error=str(e)), kind="tie", no_input=True):
+            return False
+        return True
 
 
 def check_defaults(ctx, pre, pt):
